@@ -1,11 +1,11 @@
 """C07 — the store can always reopen what it wrote (E2 reopen profiles + E4 crash images)."""
 from . import crashwl as W
 
-PARAM_SECTIONS = ["wal", "vlog"]
+PARAM_SECTIONS = ["wal", "vlog", "arena"]
 from . import e2gen as G
 from . import crashproto as P
 
-MODEL_TARGETS = ["theories/Spec/Machine.vo", "theories/Crash/Proto.vo", "theories/Lsm/VlogOpen.vo"]
+MODEL_TARGETS = ["theories/Spec/Machine.vo", "theories/Crash/Proto.vo", "theories/Lsm/VlogOpen.vo", "theories/Lsm/Arena.vo"]
 TRUSTED = __import__("vlib.c02", fromlist=["TRUSTED"]).TRUSTED + [
     "clean-reopen part: API histories with reopen placed anywhere, compared with the specification machine (reopen = identity on committed data)"]
 ASSUMPTIONS = __import__("vlib.c02", fromlist=["ASSUMPTIONS"]).ASSUMPTIONS
@@ -63,6 +63,77 @@ def header_sweep(ctx, r):
     return r
 
 
+def arena_sweep(ctx, r):
+    """memtable arena accounting: batches whose size sweeps the band below the memtable size — the pre-WAL bound of the crate equals
+    the model's (Lsm/Arena.v ar_bound), the size of an empty memtable equals ar_empty_n, a batch the bound admits is accepted by an
+    EMPTY memtable in every one of `reps` applications (the tower heights are drawn at random inside MemTable::add), and the arena
+    sizes after accepted applications lie between the model's answers for all-minimal and all-maximal heights.  An admitted batch
+    that an empty memtable refuses is a violation (class oversized_batch_logged_blocks_reopen: its record would be in the WAL)."""
+    import random
+    from . import common as C
+    rng = random.Random(ctx["seed"] * 131 + 5)
+    quick = ctx["tier"] == "quick"
+    reps = 40 if quick else 400
+    cases = []
+    for cap in ([4096, 8192, 65536] if quick else [2048, 4096, 8192, 16384, 65536, 262144]):
+        for total in range(cap - 1000, cap - 280, 8 if quick else 2):
+            k = rng.choice([1, 4, 16, 100])
+            cases.append((cap, [(k, total - k)]))
+        for _ in range(40 if quick else 400):
+            n = rng.randint(2, 6)
+            room = cap - 399 - n * 200 - rng.randint(0, 400)
+            if room < n * 8:
+                continue
+            cuts = sorted(rng.randint(0, room) for _ in range(n - 1))
+            parts = [b - a for a, b in zip([0] + cuts, cuts + [room])]
+            cases.append((cap, [(rng.choice([1, 4, 30]), max(0, p_)) for p_ in parts]))
+    script = ["ar consts"]
+    for cap, es in cases:
+        t = ",".join("%d:%d" % e for e in es)
+        script += ["ar bound " + t, "ar add %d %d %s" % (cap, reps, t)]
+    sides = ("impl", "model") if ctx["have_model"] else ("impl",)
+    out = C.run_pairs([script], sides=sides)[0]
+    impl = out["impl"][0]
+    model = out["model"][0] if "model" in out else None
+    st = dict(cases=len(cases), admitted=0, admitted_refused=0, not_admitted_accepted_sometimes=0, applications=0)
+    if model is not None and (len(model) != len(script) or len(impl) != len(script)):
+        r["disagreements"].append("arena sweep: answer counts differ (impl %d, model %d, script %d)" % (len(impl), len(model), len(script)))
+        model = None
+    if model is not None:
+        if impl[0] != model[0]:
+            r["disagreements"].append("arena: empty memtable size IMPL %s MODEL %s" % (impl[0], model[0]))
+        for i, (cap, es) in enumerate(cases):
+            bi, bm = impl[1 + 2 * i], model[1 + 2 * i]
+            ai, am = impl[2 + 2 * i], model[2 + 2 * i]
+            cmd = script[2 + 2 * i]
+            if bi != bm:
+                r["disagreements"].append("arena: `%s` IMPL %s MODEL %s" % (script[1 + 2 * i], bi, bm))
+                continue
+            try:
+                fi = dict(x.split(":") for x in ai.split())
+                fm = dict(x.split(":") for x in am.split())
+                ok, full = int(fi["ok"]), int(fi["full"])
+            except Exception:
+                r["disagreements"].append("arena: `%s` IMPL %s MODEL %s" % (cmd, ai, am))
+                continue
+            st["applications"] += ok + full
+            if fm["admit"] == "1":
+                st["admitted"] += 1
+                if full:
+                    st["admitted_refused"] += 1
+                    r["violations"].append(("a batch admitted by the pre-WAL size check (bound %s <= %d) is refused by an EMPTY memtable in %d of %d applications (class oversized_batch_logged_blocks_reopen)" % (bi.split(":")[1], cap, full, ok + full),
+                                            "# property=C07\n# arena sweep (tools/vlib/c07.py arena_sweep); replay: feed the lines to the harness (repeat: heights are random) and to driver/skv_driver\n%s\n%s\n# IMPL %s / %s\n# MODEL %s / %s\n" % (script[1 + 2 * i], cmd, bi, ai, bm, am)))
+            elif ok:
+                st["not_admitted_accepted_sometimes"] += 1
+            if ok and fm["lo"] != "full" and int(fi["min"]) < int(fm["lo"]):
+                r["disagreements"].append("arena: `%s` smallest arena size IMPL %s below MODEL lo %s" % (cmd, fi["min"], fm["lo"]))
+            if ok and fm["hi"] != "full" and int(fi["max"]) > int(fm["hi"]):
+                r["disagreements"].append("arena: `%s` largest arena size IMPL %s above MODEL hi %s" % (cmd, fi["max"], fm["hi"]))
+    r["coverage"]["arena_accounting"] = st
+    r["coverage"]["evaluations"] += len(script) * len(sides)
+    return r
+
+
 def explore(ctx):
     r = G.explore_profiles(ctx, "C07", PROFILES, nontrivial, n_quick=150, n_thorough=2000)
     c = W.explore(dict(ctx, seed=ctx["seed"] + 2000), "C07", {"open-failed"}, n_quick=8, n_thorough=60, proto=P, proto_gen2=2 if ctx["tier"] == "quick" else 6)
@@ -82,6 +153,7 @@ def explore(ctx):
                    " — here the verdict is that every image opens (twice) without error")
     cov["samples"] = cov.get("samples", []) + cc["samples"][:1]
     r = header_sweep(ctx, r)
+    r = arena_sweep(ctx, r)
     return r
 
 
